@@ -35,8 +35,9 @@ def use_types(t):
 def resolve_callee(prog, f, call, local_defs=None):
     """FuncInfo or ast.FunctionDef of the single repository function `call` invokes, with skip_self flag; None otherwise."""
     fn = call.func
-    if TYPES is not None and isinstance(fn, ast.Attribute) and dotted(fn.value) and dotted(fn.value).split(".")[0] not in ("cls",) \
-            and dotted(fn.value) not in ("self",) and isinstance(f, FuncInfo):
+    if TYPES is not None and isinstance(fn, ast.Attribute) and isinstance(f, FuncInfo) and (
+            (dotted(fn.value) and dotted(fn.value).split(".")[0] not in ("cls",) and dotted(fn.value) not in ("self",))
+            or (isinstance(fn.value, ast.Call) and dotted(fn.value.func))):
         from .types import FCtx
 
         try:
@@ -205,7 +206,13 @@ def _callee_body(prog, callee, skip_self, call, counter, self_expr):
     params = [x.arg for x in a.posonlyargs + a.args]
     mapping, pre = {}, []
     if skip_self and params:
-        mapping[params[0]] = self_expr
+        if self_expr is not None and not isinstance(self_expr, (ast.Name, ast.Attribute)):
+            # a computed receiver (`Factory.make(x).method()`) is evaluated once
+            tmp = "%s__%s_%d" % (node.name, params[0], counter[0])
+            pre.append(_loc(ast.Assign(targets=[ast.Name(id=tmp, ctx=ast.Store())], value=self_expr, type_comment=None), call))
+            mapping[params[0]] = ast.Name(id=tmp, ctx=ast.Load())
+        else:
+            mapping[params[0]] = self_expr
         params = params[1:]
     defaults = dict(zip([x.arg for x in (a.posonlyargs + a.args)][-len(a.defaults):], a.defaults)) if a.defaults else {}
     given = dict(zip(params, call.args))
@@ -512,7 +519,24 @@ def _fuse_generator_loop(prog, owner, st, local_defs, counter, local_only, top, 
         return None
     own = [x for x in _walk_same_function(cnode)]
     ys = [x for x in own if isinstance(x, (ast.Yield, ast.YieldFrom))]
-    if not ys or len(ys) > 3 or any(isinstance(x, ast.YieldFrom) or x.value is None for x in ys) or any(isinstance(x, ast.Return) for x in own):
+    if not ys:
+        # a helper that hands back a generator expression: the loop runs over that expression
+        rets = [x for x in own if isinstance(x, ast.Return)]
+        if len(rets) == 1 and isinstance(rets[0].value, ast.GeneratorExp) and not st.orelse:
+            self_expr = copy.deepcopy(st.iter.func.value) if isinstance(st.iter.func, ast.Attribute) else None
+            body = _callee_body(prog, callee, skip, st.iter, counter, self_expr)
+            if body and isinstance(body[-1], ast.Return) and isinstance(body[-1].value, ast.GeneratorExp) \
+                    and not any(isinstance(x, ast.Return) for b in body[:-1] for x in ast.walk(b)):
+                from .desugar import _D
+
+                d_ = _D()
+                d_.lits, d_.gens = {}, {}
+                loop = _loc(ast.For(target=copy.deepcopy(st.target), iter=body[-1].value, body=copy.deepcopy(st.body), orelse=[], type_comment=None), st)
+                r_ = d_.visit_For(loop)
+                sub_owner = as_receiver(callee, owner, st.iter) if isinstance(callee, FuncInfo) else owner
+                return body[:-1] + (r_ if isinstance(r_, list) else [r_]), sub_owner
+        return None
+    if len(ys) > 3 or any(isinstance(x, ast.YieldFrom) or x.value is None for x in ys) or any(isinstance(x, ast.Return) for x in own):
         return None
 
     def own_jumps(stmts):
